@@ -30,8 +30,8 @@ def pre_lines(fn):
     out = []
     for line in (fn.__doc__ or '').splitlines():
         line = line.strip()
-        if line.startswith('pre:'):
-            out.append(line[4:].strip())
+        if line.startswith('requires:'):
+            out.append(line[len('requires:'):].strip())
     return out
 
 
@@ -39,8 +39,8 @@ def raises_lines(fn):
     out = []
     for line in (fn.__doc__ or '').splitlines():
         line = line.strip()
-        if line.startswith('raises:'):
-            out.append(line)
+        if line.startswith('may-raise:'):
+            out.append('raises:' + line[len('may-raise:'):])
     return out
 
 
@@ -67,6 +67,15 @@ def make_wrapper(spec, fn):
     src += 'from %s import *\n' % spec['module']
     src += 'def cond(%s) -> bool:\n    """\n%s    """\n    return _m.%s(%s)\n' % (
         params, doc, spec['fn'], call)
+    # CrossHair short-circuits calls to functions that carry PEP316 contracts (it may assume their
+    # postcondition instead of executing the body - observed to lose counterexamples). Harness functions
+    # therefore state their bounds as 'requires:' lines, which CrossHair does not recognise; only the
+    # generated wrapper carries a contract.
+    import types
+    hm = sys.modules[spec['module']]
+    for v in list(vars(hm).values()):
+        if isinstance(v, types.FunctionType) and v.__doc__ and ('post:' in v.__doc__ or 'pre:' in v.__doc__):
+            raise TypeError('harness function %s carries a PEP316 contract; use requires:' % v.__name__)
     name = 'xhw_%d' % os.getpid()
     path = os.path.join(spec['scratch'], name + '.py')
     with open(path, 'w') as f:
